@@ -107,6 +107,7 @@ struct Env {
 	SynthDataset synth;
 	bool haveSynth = false;
 	std::map<int, randomx_vm*> vms;
+	std::function<void(int, randomx_vm*)> onCreate;
 	void init(bool withSynth, const char* key = "verif program-level key") {
 		cache = randomx_alloc_cache(RANDOMX_FLAG_DEFAULT);
 		if (!cache) { fprintf(stderr, "cache alloc failed\n"); abort(); }
@@ -121,6 +122,7 @@ struct Env {
 		                                               : randomx_create_vm((randomx_flags)flags, cache, nullptr);
 		if (!v) { fprintf(stderr, "vm creation failed for flags %d\n", flags); abort(); }
 		vms[flags] = v;
+		if (onCreate) onCreate(flags, v);
 		return v;
 	}
 	void destroyVms() { for (auto& kv : vms) randomx_destroy_vm(kv.second); vms.clear(); }
